@@ -125,8 +125,10 @@ fn gen_foldfn(t: &mut Tape, ty: &Ty) -> FoldFn {
 }
 
 fn gen_case(t: &mut Tape) -> Case {
-    // 80 % of the budget avoids the open key-collision findings; the rest runs with the avoidance off
-    let sw = Switches { avoid_key_collision: !t.chance(1, 5) };
+    // the key-collision findings were repaired in e1155ea: colliding keys are always used (the draw is kept so that
+    // stored tapes decode as before; set the switch to `!t.chance(1, 5)` again for a future open finding)
+    let _ = t.chance(1, 5);
+    let sw = Switches { avoid_key_collision: false };
     let kind = match t.weighted(&[3, 3, 2, 2]) {
         0 => Kind::List,
         1 => Kind::Dict,
@@ -567,8 +569,8 @@ impl Check for C18 {
          Inputs excluded as unspecified by docs/signatures (skipped when rendered, counted as labels excluded:*): list.set with an \
          index outside 0..len-1; div(a, 0); the direction in which div rounds a negative inexact quotient (only |a - q*b| < |b| is \
          checked there); sign(0) and sign(0.0); clamp with lo > hi; mixing int and float arguments; |x| > 2^31. \
-         The open key-collision findings (dict/set keys stored under tostring(k)) are avoided for 80 % of the budget: a key whose \
-         printed text equals that of an earlier key of the universe is not used; the switch is off in the other 20 %."
+         Tuple keys with adjacent string components get planted pairs of distinct keys that print the same text (the former \
+         key-collision findings, repaired in e1155ea)."
             .into()
     }
     fn assumptions(&self) -> Vec<String> {
